@@ -186,6 +186,10 @@ class PBound(object):
         self.name = name
 
 
+SHARED_MUTATORS = frozenset(('append', 'extend', 'insert', 'pop', 'remove', 'clear', 'sort', 'reverse', 'add', 'discard', 'update',
+                             'setdefault', 'popitem', '__setitem__', '__delitem__'))
+
+
 class PGen(object):
     """A generator of the interpreted program, run eagerly: `items` is what it yields
     (PList contents).  Assumes the consumer exhausts it or the body is pure (stated)."""
@@ -2244,7 +2248,7 @@ class Engine(object):
             obj.val[idx] = v
             return
         if isinstance(obj, (dict, list)):
-            raise Unsupported('store into an object of the real module (shared state)')
+            self.shared_state_write('subscript store', obj)
         raise Unsupported('subscript store on %r' % (obj,))
 
     def slice(self, obj, lo, hi):
@@ -2756,7 +2760,16 @@ class Engine(object):
             return list(getattr(recv, name)())
         if isinstance(recv, (tuple, frozenset)) and not any(is_sym(a) for a in args):
             return getattr(recv, name)(*args)
+        if isinstance(recv, (list, dict, set)) and name in SHARED_MUTATORS:
+            self.shared_state_write(name, recv)
         raise Unsupported('method %s on %r' % (name, recv))
+
+    def shared_state_write(self, how, obj):
+        """A container of the real module / class (values the interpreted code allocates are modelled objects, never raw
+        Python containers) is written to: state shared by every call, outside the frame of any contract here."""
+        self.oblige('%s.frame.writes_shared_state[%s of a module- or class-level %s]' % (self.c.funcname, how, type(obj).__name__),
+                    z3.BoolVal(False), kind='frame')
+        raise PathEnd()
 
     def dict_get_sym(self, d, key, default, node):
         """concrete dict, symbolic key, default: ite chain (no obligation: .get never raises)"""
